@@ -58,6 +58,8 @@ func init() {
 			c.guard("RW.TMPL.COMBINESPLIT", r.ruleTmplCombineSplit)
 			c.guard("RW.TMPL.IF", r.ruleTmplStmts)
 			c.guard("RW.NOLOSS", r.ruleCover)
+			// "iteration ends exactly where the source body would return": `return` lowers to the Return signal
+			c.guard("RW.TMPL.RETURN", r.rulePass0)
 			// C01 answers for the supported subset: unlabelled break/continue (labelled forms, goto and fallthrough are C12's)
 			c.keep(func(o Obligation) bool {
 				if o.Rule == "RW.BRANCHCTX" {
@@ -66,10 +68,15 @@ func init() {
 				switch o.Rule {
 				case "SEQ.LAZY", "RW.DISPATCH", "RW.FIELDCOV", "RW.DEEPVISIT": // rejection and yield coverage are C12's
 					return false
+				case "RW.TMPL.HOIST": // scoping, C03
+					return false
+				case "RW.TMPL.RETURN": // ordinary closures are C13's
+					return !strings.HasPrefix(o.Construct, "nested ordinary closure")
 				}
 				return true
 			})
 			c.min("RW.NOLOSS", 20)
+			c.min("RW.TMPL.RETURN", 4)
 			c.min("RW.BRANCHCTX", 200)
 			c.min("RW.KINDTAB", 3)
 			c.min("SEQ.FOR", 6)
